@@ -1265,3 +1265,8 @@ mod test {
         assert!(OsuPerformance::try_new(map).is_none());
     }
 }
+
+// Verification hook (compiled only by `cargo kani`, which sets `--cfg kani`).
+#[cfg(kani)]
+#[path = "/verif/harness/osu_perf.rs"]
+pub(crate) mod verif_harness;
